@@ -169,7 +169,8 @@ var props = []*PropDef{
 	},
 	{
 		ID:     "C12",
-		Unwind: []*Unwinder{unwPDF, unwDM, unwQR, unwQRBlocks, unwSelect},
+		Unwind: []*Unwinder{unwPDF, unwDM, unwQR, unwQRBlocks, unwSelect, unwAztec},
+		Only:   map[string]string{"aztec": `/(ecc-honoured|fits|words|totalbits|wordsize|stuff-wordsize)$|/pre/aztec\.generateCheckWords`},
 		Tables: []string{"qr/versionInfos", "qr/formatInfos", "dm/codeSizes", "pdf417/tables"},
 		Harness: []Harness{
 			{Pkg: "qr", File: "c01_qr_test.go", Run: "^TestVerifC12QR$", Bound: boundedNote + "decoded level == requested, every block has the ISO number of check words"},
@@ -177,21 +178,22 @@ var props = []*PropDef{
 			{Pkg: "pdf417", File: "c04_pdf_test.go", Run: "^TestVerifC12PDF$", Bound: boundedNote + "decoded level == requested"},
 			{Pkg: "datamatrix", File: "c02_dm_test.go", Run: "^TestVerifC12DM$", Bound: boundedNote},
 		},
-		Assumptions: []string{asmRS, "Aztec percentage arithmetic (eccBits) is not under contract yet: bounded stand-in"},
-		Note:        "QR: [C] drawFormatInfo writes the BCH word of the row's level ([T] formatInfos) into both copies, [T] block table = ISO check-word counts. PDF417: [C] indicators carry 3*level + (rows-1) mod 3 per ISO, Compute is asked for and the symbol holds 2^(level+1) check words. DataMatrix: [C]+[T] ECC 200 counts per size. Aztec: bounded.",
+		Assumptions: []string{asmRS, "Aztec: stuffBits is abstracted by its contract (length bounds; its length is the spec function azStuffLen(bits, wordSize)); the check-word count is what generateCheckWords is asked for (its body: C17 / bounded)"},
+		Note:        "QR: [C] drawFormatInfo writes the BCH word of the row's level ([T] formatInfos) into both copies, [T] block table = ISO check-word counts. PDF417: [C] indicators carry 3*level + (rows-1) mod 3 per ISO, Compute is asked for and the symbol holds 2^(level+1) check words. DataMatrix: [C]+[T] ECC 200 counts per size. Aztec: [C] for each of the 36 explicit sizes and for every path of the automatic selection, the accepted size holds the stuffed data plus eccBits = bits*pct/100 + 11 check bits within its usable bits (ecc-honoured / fits), for all payloads and all percentages 0..1000.",
 	},
 	{
 		ID:     "C13",
-		Unwind: []*Unwinder{unwPDF, unwSelect},
-		Tables: []string{"qr/versionInfos", "dm/codeSizes"},
+		Unwind: []*Unwinder{unwPDF, unwSelect, unwAztec},
+		Only:   map[string]string{"aztec": `/(smallest|fits|too-large#[0-9]+)$`},
+		Tables: []string{"qr/versionInfos", "dm/codeSizes", "aztec/tables"},
 		Harness: []Harness{
 			{Pkg: "qr", File: "c01_qr_test.go", Run: "^TestVerifC13QR$", Bound: boundedNote + "chosen version == smallest fitting version at every capacity boundary"},
 			{Pkg: "datamatrix", File: "c02_dm_test.go", Run: "^TestVerifC13DM$", Bound: boundedNote + "smallest size at every capacity boundary"},
 			{Pkg: "aztec", File: "c03_aztec_test.go", Run: "^TestVerifC13Aztec$", Bound: boundedNote + "every smaller explicit size is refused"},
 			{Pkg: "pdf417", File: "c04_pdf_test.go", Run: "^TestVerifC13PDF$", Bound: boundedNote},
 		},
-		Assumptions: []string{"Aztec minimality of the automatic layer search is not proved: bounded stand-in (every smaller explicit size is refused)"},
-		Note:        "PDF417: [C] for every unwound (n, level): padding < one row and 2..30 rows/columns. QR/DataMatrix: [T] tables ordered with strictly increasing capacity and [C select] the search loops of qr.findSmallestVersionInfo (symbolic bit count and level) and datamatrix.EncodeWithColor (symbolic codeword count) return the FIRST table row that fits and an error iff none does, for all inputs; first fit + ordering = smallest. Aztec: bounded.",
+		Assumptions: []string{"Aztec: stuffBits is abstracted by its contract; the stuffed length per word size is the uninterpreted spec function azStuffLen constrained by that contract"},
+		Note:        "PDF417: [C] for every unwound (n, level): padding < one row and 2..30 rows/columns. QR/DataMatrix: [T] tables ordered with strictly increasing capacity and [C select] the search loops of qr.findSmallestVersionInfo (symbolic bit count and level) and datamatrix.EncodeWithColor (symbolic codeword count) return the FIRST table row that fits and an error iff none does, for all inputs; first fit + ordering = smallest. Aztec: [C] on every path of the automatic selection (33 candidates unwound, all payloads and percentages) the chosen symbol fits and NO symbol of ISO 24778 with a smaller side length fits (all 36 sizes incl. full-range 1..3 layers, capacities from the independent aztecspec tables); the too-large error is returned only if none of the 36 fits.",
 	},
 	{
 		ID:     "C14",
